@@ -4,3 +4,4 @@ import PyndlModel.Bytes
 import PyndlModel.Ndl
 import PyndlModel.Scalar
 import PyndlModel.Generated
+import PyndlModel.Queue
